@@ -1076,6 +1076,7 @@ macro_rules! hbf_stage {
             }
             1 => {
                 let mut h = HbfInt::<f32, M, N>::new(taps);
+                assert!(h.buf_mut().len() == N - (2 * M - 1), "buf_mut() is the input part of the state");
                 out.emit(&format!("hbf_new {} 1 {} {}", $id, N, list(&tb)), Some("ok".into()));
                 let (g, mx) = h.block_size();
                 let total = (g / 2) * rng.below(3 * mx as u64 / g as u64 + 1) as usize;
@@ -1178,6 +1179,40 @@ fn fam_hbf(rng: &mut Rng, n: usize, out: &mut Out) {
             7 => hbf_stage!(rng, out, id, &HBF_TAPS_98.2, 3, 16),
             8 => hbf_stage!(rng, out, id, &HBF_TAPS_98.4, 2, 1),
             9 => hbf_stage!(rng, out, id, &[0.5f32], 1, 4),
+            10 => {
+                // integer sample types (`impl Half for i32 / i64`): small taps and samples, nothing overflows
+                macro_rules! int_stage {
+                    ($t:ty, $m:expr, $extra:expr) => {{
+                        const M: usize = $m;
+                        const N: usize = 2 * M - 1 + $extra;
+                        let mut taps = [0 as $t; M];
+                        for t in taps.iter_mut() { *t = rng.range(-9, 9) as $t; }
+                        let tl: Vec<i64> = taps.iter().map(|v| *v as i64).collect();
+                        if rng.chance(1, 2) {
+                            let mut h = HbfDec::<$t, M, N>::new(&taps);
+                            out.emit(&format!("hbf_new {} 4 {} {}", id, N, list(&tl)), Some("ok".into()));
+                            let (g, mx) = h.block_size();
+                            let total = g * rng.below(3 * mx as u64 / g as u64 + 1) as usize;
+                            for b in partition(rng, total, g, mx) {
+                                let xin: Vec<$t> = (0..b).map(|_| rng.range(-100000, 100000) as $t).collect();
+                                let r = guard(|| { let mut y = xin.clone(); h.process_block(None, &mut y).to_vec() });
+                                out.emit(&format!("hbf_proc {} {}", id, list(&xin)), r.map(|y| list(&y)));
+                            }
+                        } else {
+                            let mut h = HbfInt::<$t, M, N>::new(&taps);
+                            out.emit(&format!("hbf_new {} 5 {} {}", id, N, list(&tl)), Some("ok".into()));
+                            let (g, mx) = h.block_size();
+                            let total = (g / 2) * rng.below(3 * mx as u64 / g as u64 + 1) as usize;
+                            for b in partition(rng, total, g / 2, mx / 2) {
+                                let xin: Vec<$t> = (0..b).map(|_| rng.range(-100000, 100000) as $t).collect();
+                                let r = guard(|| { let mut y = vec![0 as $t; 2 * b]; y[..b].copy_from_slice(&xin); h.process_block(None, &mut y).to_vec() });
+                                out.emit(&format!("hbf_proc {} {}", id, list(&xin)), r.map(|y| list(&y)));
+                            }
+                        }
+                    }};
+                }
+                match rng.below(3) { 0 => int_stage!(i32, 4, 16), 1 => int_stage!(i64, 7, 9), _ => int_stage!(i32, 1, 4) }
+            }
             _ => {
                 // cascades, in place
                 let depth = rng.below(5) as usize;
@@ -1339,6 +1374,13 @@ pub fn coeff_params(rng: &mut Rng) -> (f64, idsp::iir::Shape<f64>, i64, f64, f64
 /// apply the builder's setters in a random order (shape before or after frequency / shelf, frequency re-tuned):
 /// the result must depend only on the final parameter values
 pub fn coeff_setup(rng: &mut Rng, f: &mut idsp::iir::Filter<f64>, w0: f64, shape: idsp::iir::Shape<f64>, gain: f64, shelf: f64) {
+    coeff_setup_f0(rng, f, None, w0, shape, gain, shelf)
+}
+
+/// as `coeff_setup`; when the relative frequency `f0` is given (`w0 == TAU * f0` bit for bit) the frequency is set
+/// through one of the three spellings (`angular_critical_frequency`, `critical_frequency`, `frequency(cf, fs)` with a
+/// power-of-two sample rate so that `cf / fs == f0` exactly), and `Q` possibly through `inverse_q`
+pub fn coeff_setup_f0(rng: &mut Rng, f: &mut idsp::iir::Filter<f64>, f0: Option<f64>, w0: f64, shape: idsp::iir::Shape<f64>, gain: f64, shelf: f64) {
     let mut order: [u8; 4] = [0, 1, 2, 3];
     for i in (1..4).rev() {
         let j = rng.below(i as u64 + 1) as usize;
@@ -1355,12 +1397,22 @@ pub fn coeff_setup(rng: &mut Rng, f: &mut idsp::iir::Filter<f64>, w0: f64, shape
     }
     for o in order {
         match o {
-            0 => { f.angular_critical_frequency(w0); }
+            0 => {
+                match (f0, rng.below(3)) {
+                    (Some(f0), 1) => { f.critical_frequency(f0); }
+                    (Some(f0), 2) => { let fs = (1u64 << rng.below(24)) as f64; f.frequency(f0 * fs, fs); }
+                    _ => { f.angular_critical_frequency(w0); }
+                }
+            }
             1 => { f.gain(gain); }
             2 => { f.shelf(shelf); }
             _ => {
                 match shape {
-                    idsp::iir::Shape::Q(v) => { if rng.chance(1, 2) { f.q(v); } else { f.set_shape(shape); } }
+                    idsp::iir::Shape::Q(v) => {
+                        // inverse_q(qi) is q(1/qi): only used when the reciprocal round-trips exactly
+                        let qi = 1.0 / v;
+                        match rng.below(3) { 0 => { f.q(v); } 1 if 1.0 / qi == v => { f.inverse_q(qi); } _ => { f.set_shape(shape); } }
+                    }
                     idsp::iir::Shape::Bandwidth(v) => { if rng.chance(1, 2) { f.bandwidth(v); } else { f.set_shape(shape); } }
                     idsp::iir::Shape::Slope(v) => { if rng.chance(1, 2) { f.shelf_slope(v); } else { f.set_shape(shape); } }
                 }
@@ -1389,7 +1441,7 @@ fn fam_coeff(rng: &mut Rng, n: usize, out: &mut Out) {
         let w0 = std::f64::consts::TAU * f0;
         let typ = rng.below(9);
         let mut f = idsp::iir::Filter::<f64>::default();
-        coeff_setup(rng, &mut f, w0, shape, gain, shelf);
+        coeff_setup_f0(rng, &mut f, Some(f0), w0, shape, gain, shelf);
         let ba = coeff_build(&f, typ);
         let flat = [ba[0][0], ba[0][1], ba[0][2], ba[1][0], ba[1][1], ba[1][2]];
         out.emit(
@@ -1567,7 +1619,42 @@ fn fam_glue(rng: &mut Rng, n: usize, out: &mut Out) {
     let mut ny = 0i32;
     let mut rp = [0i64; 3];
     for i in 0..n {
-        match i % 7 {
+        match i % 8 {
+            7 => {
+                // small public surface that no property names but C20 includes: getters, set_rate, the state
+                // variable filter (constructed through serde, its only constructor), integer half-band samples
+                {
+                    let (r1, r2) = (rng.below(40) as u32, rng.below(40) as u32);
+                    let mut c = Cic::<i64, 3>::new(r1);
+                    assert!(c.order() == 3 && c.rate() == r1);
+                    for _ in 0..rng.below(12) { let _ = c.decimate(rng.int(20) as i64); }
+                    let (_, index, zoh, combs, integ) = c.verif_raw();
+                    c.set_rate(r2);
+                    assert!(c.rate() == r2 && c.verif_raw() == (r2, index, zoh, combs, integ), "set_rate changes the rate only");
+                }
+                {
+                    let mut h = idsp::hbf::HbfDecCascade::default();
+                    let d = rng.below(5) as usize;
+                    h.set_depth(d);
+                    assert!(h.depth() == d);
+                    let mut h = idsp::hbf::HbfIntCascade::default();
+                    h.set_depth(d);
+                    assert!(h.depth() == d);
+                    let o = AccuOsc::new(Sweep::new(rng.i32(), rng.i64()));
+                    assert!(o.size_hint() == (usize::MAX, None) || o.size_hint() == Sweep::new(0, 0).size_hint());
+                }
+                let f0 = rng.below(1 << 16) as f64 / (1 << 17) as f64;
+                let q = 0.1 + rng.below(1000) as f64 / 50.0;
+                let mut svf: idsp::svf::Svf<f64> = serde_json::from_str("{\"f\":0.0,\"q\":0.0}").expect("Svf deserialises");
+                svf.set_frequency(f0);
+                svf.set_q(q);
+                let v = |rng: &mut Rng| rng.range(-100000, 100000) as f64 / 64.0;
+                let mut st = idsp::svf::State { lp: v(rng), hp: v(rng), bp: v(rng) };
+                let (lp, hp, bp, x) = (st.lp, st.hp, st.bp, v(rng));
+                svf.update(&mut st, x);
+                assert!(st.br() == st.hp + st.lp);
+                out.emit(&format!("f_svf {} {} {} {}", f0.to_bits(), q.to_bits(), list(&[lp.to_bits(), hp.to_bits(), bp.to_bits()]), x.to_bits()), Some(list(&[st.lp.to_bits(), st.hp.to_bits(), st.bp.to_bits()])));
+            }
             0 => {
                 if rng.chance(1, 20) { ny = rng.i32(); }
                 let x = rng.i32();
@@ -1597,6 +1684,7 @@ fn fam_glue(rng: &mut Rng, n: usize, out: &mut Out) {
                     idsp::Filter::set(&mut rep, (rp[0] >> 32) as i32);
                     let y2 = guard(|| idsp::Filter::update(&mut rep, x, &[k]));
                     assert_eq!(y2, r);
+                    if y2.is_some() { assert_eq!(idsp::Filter::get(&rep), idsp::Filter::get(&stages[2]), "Repeat::get is the last stage's"); }
                 }
                 out.emit(&format!("repeat_lp1 {} {} {}", list(&rp), x, k), r.map(|y| format!("{} {}", list(&after), y)));
                 if r.is_some() { rp = after; }
@@ -1611,6 +1699,12 @@ fn fam_glue(rng: &mut Rng, n: usize, out: &mut Out) {
                 // model: lowpass state 0, nyquist state v
                 let mut lp = Lowpass::<1>::default();
                 let yl = guard(|| idsp::Filter::update(&mut lp, x, &[k]));
+                if let (Some(_), Some(yl)) = (y, yl) {
+                    let mut n2 = Nyquist::default();
+                    idsp::Filter::set(&mut n2, v);
+                    let _ = idsp::Filter::update(&mut n2, yl, &());
+                    assert_eq!(idsp::Filter::get(&c), idsp::Filter::get(&n2), "Cascade::get is the second stage's");
+                }
                 out.emit(&format!("cascade_lp1_nyq 0 {} {} {}", v, x, k), match (y, yl) {
                     (Some(y), Some(yl)) => Some(format!("{} {} {}", lp.verif_raw()[0], yl >> 1, y)),
                     _ => None,
@@ -1657,9 +1751,73 @@ fn fam_glue(rng: &mut Rng, n: usize, out: &mut Out) {
 }
 
 // ------------------------------------------------------------------ Pid::build / BiquadRepr::Ba glue (repr.rs, pid.rs)
+/// set one leaf of a miniconf tree through its `TreeAny` interface (the fields of `FilterRepr` are private: this is
+/// the route a settings front end takes)
+fn set_leaf<T: miniconf::TreeAny, V: 'static>(tree: &mut T, path: &str, v: V) {
+    use miniconf::IntoKeys;
+    let any = tree.mut_any_by_key(miniconf::Path::<&str, '/'>(path).into_keys()).expect("leaf path");
+    *any.downcast_mut::<V>().expect("leaf type") = v;
+}
+
 fn fam_repr(rng: &mut Rng, n: usize, out: &mut Out) {
     use idsp::iir::{Ba, BiquadRepr, Order, Pid};
+    {
+        // `BiquadRepr::default()` is `Ba(Ba::default())`: b = 0, a = [1, 0, 0], no offset, no limits
+        let d: Biquad<f64> = BiquadRepr::<f64, f64>::default().build::<f64>(1.0, 1.0, 1.0);
+        assert!(*d.ba() == [0.0; 5] && d.u() == 0.0 && d.min() == f64::NEG_INFINITY && d.max() == f64::INFINITY);
+    }
     for i in 0..n {
+        if i % 3 == 0 {
+            // BiquadRepr::Filter: the serialisable cookbook representation (gains in dB, absolute frequency)
+            use idsp::iir::{FilterRepr, Shape, Typ};
+            let typs = [Typ::Lowpass, Typ::Highpass, Typ::Bandpass, Typ::Allpass, Typ::Notch, Typ::Peaking, Typ::Lowshelf, Typ::Highshelf, Typ::IHo];
+            let ti = rng.below(9) as usize;
+            let period = 10f64.powi(rng.range(-6, -1) as i32) * (1.0 + rng.below(9) as f64);
+            let f0 = 1e-3 + 0.48 * (rng.below(1 << 16) as f64 / 65536.0);
+            let freq = f0 / period;
+            let gdb = rng.range(-400, 400) as f64 / 10.0;
+            let sdb = rng.range(-300, 300) as f64 / 10.0;
+            let sv = 0.2 + rng.below(500) as f64 / 50.0;
+            let sk = rng.below(3) as i64;
+            let shape = match sk { 0 => Shape::Q(sv), 1 => Shape::Bandwidth(sv.min(4.0)), _ => Shape::Slope((sv / 10.0).min(1.0)) };
+            let svv = match shape { Shape::Q(v) | Shape::Bandwidth(v) | Shape::Slope(v) => v };
+            let (off, mn, mx) = (rng.range(-100, 100) as f64 / 10.0, -(1.0 + rng.below(1000) as f64 / 10.0), 1.0 + rng.below(1000) as f64 / 10.0);
+            let bs = if rng.chance(1, 2) { 1.0 } else { 0.25 + rng.below(4) as f64 * 0.25 };
+            let ys = 1.0 + rng.below(1000) as f64;
+            let mut fr = FilterRepr::<f64>::default();
+            set_leaf(&mut fr, "/typ", typs[ti]);
+            set_leaf(&mut fr, "/frequency", freq);
+            set_leaf(&mut fr, "/gain", gdb);
+            set_leaf(&mut fr, "/shelf", sdb);
+            set_leaf(&mut fr, "/shape", shape);
+            set_leaf(&mut fr, "/offset", off);
+            set_leaf(&mut fr, "/min", mn);
+            set_leaf(&mut fr, "/max", mx);
+            let args = format!("{} {} {} {} {} {} {} {} {} {} {} {}", ti, sk, svv.to_bits(), freq.to_bits(), gdb.to_bits(), sdb.to_bits(), off.to_bits(), mn.to_bits(), mx.to_bits(), period.to_bits(), bs.to_bits(), ys.to_bits());
+            if i % 2 == 0 {
+                let b: Biquad<f64> = BiquadRepr::<f64, f64>::Filter(fr).build::<f64>(period, bs, ys);
+                if b.ba().iter().all(|v| v.is_finite()) {
+                    out.emit(&format!("f_filterrepr 0 0 {}", args), Some(format!("{} {} {} {}", list(&b.ba().map(|v| v.to_bits())), b.u().to_bits(), b.min().to_bits(), b.max().to_bits())));
+                    // the way back: coefficients as an f64 array with a0 = 1; Raw returns the stored biquad
+                    let back: [[f64; 3]; 2] = (&b).into();
+                    let flat = [back[0][0], back[0][1], back[0][2], back[1][0], back[1][1], back[1][2]];
+                    out.emit(&format!("f_to_ba 0 0 {}", list(&b.ba().map(|v| v.to_bits()))), Some(list(&flat.map(|v| v.to_bits()))));
+                    let raw = BiquadRepr::<f64, f64>::Raw(miniconf::Leaf(b.clone())).build::<f64>(period, bs, ys);
+                    assert!(raw == b, "BiquadRepr::Raw must return the stored biquad");
+                }
+            } else if let Some(b) = guard(|| BiquadRepr::<f64, i32>::Filter(fr).build::<f64>(period, bs, ys)) {
+                out.emit(&format!("f_filterrepr 32 30 {}", args), Some(format!("{} {} {} {}", list(b.ba()), b.u(), b.min(), b.max())));
+                let back: [[f64; 3]; 2] = (&b).into();
+                let flat = [back[0][0], back[0][1], back[0][2], back[1][0], back[1][1], back[1][2]];
+                out.emit(&format!("f_to_ba 32 30 {}", list(b.ba())), Some(list(&flat.map(|v| v.to_bits()))));
+                let mut m = b.clone();
+                m.ba_mut()[0] = b.ba()[0];
+                assert!(m == b, "ba_mut gives access to the same array");
+            }
+            let (a, d) = (rng.range(-1000, 1000) as f64 / 7.0, if rng.chance(1, 20) { 0.0 } else { rng.range(-1000, 1000) as f64 / 13.0 });
+            out.emit(&format!("f_divscaled {} {}", a.to_bits(), d.to_bits()), Some(idsp::Coefficient::div_scaled(a, d).to_bits().to_string()));
+            continue;
+        }
         let dec = |rng: &mut Rng| -> f64 { 10f64.powi(rng.range(-5, 2) as i32) * (1.0 + rng.below(900) as f64 / 100.0) };
         let period = 10f64.powi(rng.range(-3, 1) as i32) * (1.0 + rng.below(9) as f64);
         let b_scale = dec(rng) * if rng.chance(1, 5) { -1.0 } else { 1.0 };
@@ -1684,11 +1842,12 @@ fn fam_repr(rng: &mut Rng, n: usize, out: &mut Out) {
             let args = format!("{} {} {} {} {} {} {} {} {}", period.to_bits(), order as usize, list(&gains.map(|v| v.to_bits())), list(&limits.map(|v| v.to_bits())),
                 b_scale.to_bits(), y_scale.to_bits(), setpoint.to_bits(), mn.to_bits(), mx.to_bits());
             if i % 4 == 0 || crate::MODE != 'C' {
-                let b: Biquad<f64> = pid.build::<f64, f64>(period, b_scale, y_scale);
+                // half of the time through the enum the settings tree holds (`BiquadRepr::Pid`)
+                let b: Biquad<f64> = if rng.chance(1, 2) { BiquadRepr::<f64, f64>::Pid(pid.clone()).build::<f64>(period, b_scale, y_scale) } else { pid.build::<f64, f64>(period, b_scale, y_scale) };
                 if b.ba().iter().all(|v| v.is_finite()) && b.u().is_finite() {
                     out.emit(&format!("f_pidrepr 0 0 {}", args), Some(format!("{} {} {} {}", list(&b.ba().map(|v| v.to_bits())), b.u().to_bits(), b.min().to_bits(), b.max().to_bits())));
                 }
-            } else if let Some(b) = guard(|| pid.build::<i32, f64>(period, b_scale, y_scale)) {
+            } else if let Some(b) = guard(|| if i % 4 == 1 { BiquadRepr::<f64, i32>::Pid(pid.clone()).build::<f64>(period, b_scale, y_scale) } else { pid.build::<i32, f64>(period, b_scale, y_scale) }) {
                 out.emit(&format!("f_pidrepr 32 30 {}", args), Some(format!("{} {} {} {}", list(b.ba()), b.u(), b.min(), b.max())));
             }
         } else {
